@@ -11,6 +11,7 @@ def check(ctx, rep):
                            'parso/tree.py', 'parso/utils.py', 'parso/grammar.py'])
     tok.tok_6(ctx, rep)
     tok.tok_7(ctx, rep)
+    tok.tok_9(ctx, rep)
     tok.tok_5(ctx, rep)
     gr.gr_1_4(ctx, rep, with_follow=False)
     rep.assume('Parser.error_recovery dereferences last_leaf (None when the top stack entry is empty) only for DEDENT '
